@@ -709,7 +709,35 @@ func (de *dEval) runC14() {
 		} else if inPlace {
 			cls = "in-record"
 		}
-		de.classes[fmt.Sprintf("%s|%s|seg%d", f.Kind, cls, indexOf(logs, f.File))] = true
+		region := ""
+		if cls == "in-record" {
+			// which field of the V2 record does the damage start in?
+			for off, rl := range loc {
+				if rl.File == f.File && lo >= rl.Pos && lo < rl.End {
+					rel := lo - rl.Pos
+					pm := m.Published[off]
+					switch {
+					case rel < 4:
+						region = "crc"
+					case rel < 12:
+						region = "offset"
+					case rel < 20:
+						region = "time"
+					case rel < 24:
+						region = "keylen"
+					case rel < 28:
+						region = "vallen"
+					case rel < 28+int64(len(pm.Key)):
+						region = "key"
+					case rel < 28+int64(len(pm.Key)+len(pm.Val)):
+						region = "value"
+					default:
+						region = "trailer"
+					}
+				}
+			}
+		}
+		de.classes[fmt.Sprintf("%s|%s|%s|seg%d", f.Kind, cls, region, indexOf(logs, f.File))] = true
 		a0 := allocBytes()
 		var l klevdb.Log
 		oerr := guard(func() error {
